@@ -22,7 +22,9 @@ def run_one(name, patch, props):
             return name, {"error": "does not apply: " + r.stderr.strip()[:200]}
         fired = {}
         # own copy of the dependency cache: parallel runs must not delete each other's member fingerprints
-        subprocess.run(["rsync", "-a", "--exclude", "witness-target", "/verif/.cache/", tmp + "/_cache/"], check=True)
+        rc = subprocess.run(["rsync", "-a", "--exclude", "witness-target", "/verif/.cache/", tmp + "/_cache/"]).returncode
+        if rc not in (0, 24):  # 24: a file vanished while copying (another check refreshed the cache); cargo rebuilds what is missing
+            raise RuntimeError("rsync of the dependency cache failed: %d" % rc)
         env = dict(os.environ, VERIF_REPO=tmp, VERIF_CACHE=tmp + "/_cache", VERIF_EVIDENCE_DIR=os.path.join(tmp, "_ev"), VERIF_NO_SELFTEST="1")
         for c in props:
             p = subprocess.run(["/verif/check", c], cwd="/verif", env=env, capture_output=True, text=True)
